@@ -1,13 +1,6 @@
 SPECIFICATION Spec
 CONSTANTS
   Mode = "bfs"
-  Fams = {"kw", "prop", "view", "att"}
   MaxLen = 3
-  Mix = 2
-  Bases = {"bare", "info", "rich"}
-  DeepBases = {"rich"}
-  ShallowBases = {"info"}
-  DeepFams = {"kw", "prop", "att"}
-  Std = FALSE
   Emit = TRUE
 INVARIANTS TypeOK Isolated EmitCase
